@@ -33,7 +33,7 @@ DOCS_TRIGGER = ["whether to shuffle", "number of passes", "path to the file", "a
 # types that are Python expressions (after the parser's own rewriting of `, optional` / ` or `), `None` = no type written, "" = empty type
 TYPES = [None, None, "", "int", "float", "str", "bool", "Optional[int]", "Optional[str]", "List[str]", "Dict[str, int]", "Union[int, str]", "np.ndarray", "tf.data.Dataset",
          "Callable[[int], int]", "Tuple[int, ...]", "Literal['a', 'b']", "int, optional", "str, optional", "int or None", "str or int or float", "complex",
-         "dict", "tuple", "object", "Any", 'Literal["x y", "z"]']
+         "dict", "tuple", "object", "Any", 'Literal["x y", "z"]', "torch.Tensor", "Iterator[int]"]
 # what people write instead (only in the malformed stream: the parser passes the text through)
 TYPES_PROSE = ["list of int", "array-like", "int > 0", "{'a', 'b'}", "str (path)", "callable(x) -> y", "Union[int,\n      str]", "int:", "a b"]
 DEFAULTS = ["5", "-3", "0", "42", "3.14", "-2.5", "0.001", "True", "False", '"foo"', "'a b'", "mnist", "None", "7", "1", "2.0", "'x'", "foo.bar", "~/data"]
@@ -74,7 +74,7 @@ def gen_entries(r):
         if r.random() < 0.25:
             e["more"] = r.sample(["continued on a second line", "and a third", "Defaults to 9", "", "with: a colon", "final words."], r.randint(1, 3))
         if r.random() < 0.05:
-            e["pytorch"] = r.choice(["{'mean', 'sum'}", "{'a'}", "{x, 'it''s', \"q\"}", "{}"])
+            e["pytorch"] = r.choice(["{'mean', 'sum'}", "{'a'}", "{x, 'it''s', \"q\"}", "{}", "{a}", "{ab}"])
         ents.append(e)
     return ents
 
@@ -163,7 +163,7 @@ TOKENS = [":", ":", "(", ")", "{", "}", " or ", "*", "**", "Args:", "Returns:", 
 
 def perturb(r, d):
     lines = d.split("\n")
-    k = r.randint(0, 15)
+    k = r.randint(0, 18)
     if not lines:
         return d
     i = r.randrange(len(lines))
@@ -210,6 +210,19 @@ def perturb(r, d):
             lines = ["  " + l if l else l for l in lines]
     elif k == 11:  # delete a line
         del lines[i]
+    elif k == 14:  # blanks around a delimiter: `a ( int ) : x`, `int :`
+        s = "\n".join(lines)
+        p = [j for j, ch in enumerate(s) if ch in "():"]
+        if p:
+            j = r.choice(p)
+            pad = r.choice([" ", "  ", "\t"])
+            return s[:j] + pad + s[j:] if r.random() < 0.5 else s[:j + 1] + pad + s[j + 1:]
+    elif k == 15:  # a parameter section without entries (the header directly followed by the next section)
+        s = "\n".join(lines)
+        for head, nxt in (("Parameters\n----------\n", "Returns\n-------"), ("Args:\n", "Returns:")):
+            if head in s:
+                a, b = s.split(head, 1)
+                return a + head + (nxt + b.split(nxt, 1)[1] if nxt in b and r.random() < 0.7 else "")
     elif k == 12:  # a type in prose instead of a Python expression
         s = "\n".join(lines)
         for t in r.sample(TYPES, len(TYPES)):
@@ -231,6 +244,8 @@ def perturb(r, d):
 
 
 HANDPICKED = [
+    "Parameters\n----------\nReturns\n-------\nint\n    x", "Parameters\n----------\nReturns\n-------\nint\n    x\n\nfoo", "S\n\nParameters\n----------\n\nReturns\n-------\nint\n    x",
+    "Args:\n  a ( int ): x", "Args:\n  a (int ) : x\n\nReturns:\n  int :\n    d", "Args:\n  a: x\n\nReturns:\n  int\t:\n   d\n", "Parameters\n----------\na :  int \n    x",
     "Args:\n  : x\n", "Parameters\n----------\n : int\n    x\n", "Args:\n  :", "Parameters\n----------\n : int", "Args:\n  foo (): x", "Parameters\n----------\nb : \n    x",
     "Args:\n  a (int): x. Defaults to 5\n  *args (): y", "Args:\n  a: x\n  nocolon\n  c: z", "Args:\n  *args: x\n  args: y\n  **args: z", "Args:", "Args:\n", "Returns:", "Returns:\n",
     "Returns:\n  int: x", "Returns:\n  x", "Parameters\n----------", "Returns\n-------", "Returns\n-------\nint", "Returns\n-------\nint\n    x", "Parameters\n----------\na\nReturns\n-------\nint\n  x",
